@@ -94,6 +94,18 @@ def run(rep, ctx, prop, extra_progs=None, rule_extra=''):
             variants.append({'gen': 'crlf:' + p['gen'], 'src': p['src'].replace('\n', '\r\n')})
             if p['gen'].startswith('special:'):
                 variants.append({'gen': 'lead:' + p['gen'], 'src': '\n\n  \n' + p['src'].rstrip('\n')})
+    # every carrier (canonical / between / never form of a pattern) also with each token on a line of its own and with a
+    # comment in every gap: nothing between two tokens is part of a pattern (`address( 0 )`, `tok .\n transfer`)
+    import random
+    import sol_lexer as sl
+    lrng = random.Random(ctx.seed * 7919 + 5)
+    for p in progs:
+        if p['gen'].startswith('carrier:'):
+            for style in ('lines', 'dense'):
+                try:
+                    variants.append({'gen': style + ':' + p['gen'], 'src': sl.relayout(p['src'], lrng, style)[0]})
+                except sl.LexError:
+                    pass
     progs = progs + variants
     ps, res = eval_prop(ctx, prop, progs, 'std-%s-%d' % (ctx.tier, ctx.seed))
     if extra_progs:
